@@ -4,6 +4,8 @@
    split + commitments, Round2 = Feldman verification of every received share + summation), and the transport
    contract dkg/frostp2p.go implements (Round1 returns when the node holds the round-1 cast of EVERY node, its own
    included, and the round-1 share message of every OTHER node; Round2 returns when it holds every round-2 cast;
+   frostP2P COUNTS the messages in its receive channels -- "len(castsRecvs) == len(f.peers)" -- and builds the
+   response as a map, so "one cast from EVERY peer" rests on the callbacks accepting each peer's cast once;
    messages are per (source, target) BATCHES holding the entries of all validators, keyed by msgKey
    [ValIdx, SourceID, TargetID]).
 
@@ -25,6 +27,9 @@
      Deliver1C(i, j)  the round-1 cast batch of i reaches j          } any order; the round-2 cast of a fast node may
      Deliver1P(i, j)  the round-1 share batch of i for j reaches j   } reach a node that is still in round 1
      Deliver2(i, j)   the round-2 cast batch of i reaches j          } (separate receive channels in frostP2P)
+     Redeliver(i,j,k) a batch j has already received reaches it AGAIN (k = "c1" | "c2" | "p1"): the reliable
+                      broadcast and p2p layers may re-deliver; newBcastCallback / newP2PCallback keep one seen-set
+                      per message kind, so the copy is dropped and NOTHING changes
      Ret1(j)          BARRIER: j holds all round-1 inputs; transport Round1 returns, round2() verifies every share
                       against its sender's commitments, sums, and transport Round2 is entered (cast, self-delivery)
      Ret2(j)          j holds all round-2 casts; transport Round2 returns, makeShares builds the result
@@ -35,6 +40,8 @@
      "valperm"    makeShares hands validator v the public shares of validator v + 1 (results permuted)
      "tminus1"    the FROST library is given threshold t - 1
      "nobarrier"  transport Round1 returns one cast (and the matching share batch) early
+     "lastid"     newBcastCallback keeps, per peer, only the id of the LAST accepted cast (one map for both rounds):
+                  once a peer's round-2 cast was accepted a re-delivered round-1 cast of it is accepted again
      "mixvals"    getRound2Inputs ignores ValIdx: every validator's round 2 sees the inputs of the LAST validator *)
 EXTENDS Integers, FiniteSets, Sequences, TLC
 CONSTANTS Variant
@@ -45,10 +52,14 @@ VARIABLES par,      \* [n, t, nv, p]: nodes, threshold, validators, field modulu
           c1,       \* node -> round-1 cast batch    [ValIdx -> commitments]
           p1,       \* node -> round-1 share batches [target -> [ValIdx -> [id, val]]]
           c2,       \* node -> round-2 cast batch    [ValIdx -> [vk, vks]]
-          got1c, got1p, got2,   \* node -> sources whose batch has been received
+          got1c, got1p, got2,   \* node -> sources whose batch has been received (= the callbacks' seen-sets
+                                \* dedupRound1Casts / dedupRound1P2P / dedupRound2Casts, plus the node itself)
+          cnt1, cnt2,           \* node -> number of cast messages in its round1CastsRecv / round2CastsRecv channel
+          last,                 \* node -> [peer -> round of the last cast accepted from it] (only "lastid" reads it)
+          redel,                \* number of re-deliveries so far (history; bounded in MC configs)
           sk, vk,   \* node -> [ValIdx -> own secret share / verification (group) key] after round 2
           res       \* node -> [ValIdx -> [gk, ss, ps]]: share.Share{PubKey, SecretShare, PublicShares}
-vars == <<par, phase, poly, c1, p1, c2, got1c, got1p, got2, sk, vk, res>>
+vars == <<par, phase, poly, c1, p1, c2, got1c, got1p, got2, cnt1, cnt2, last, redel, sk, vk, res>>
 
 Nodes == 1..par.n
 Vals == 0..(par.nv - 1)
@@ -93,6 +104,8 @@ InitWith(n, t, nv, p) ==
   /\ poly = [i \in 1..n |-> <<>>] /\ c1 = [i \in 1..n |-> <<>>] /\ p1 = [i \in 1..n |-> <<>>]
   /\ c2 = [i \in 1..n |-> <<>>]
   /\ got1c = [i \in 1..n |-> {}] /\ got1p = [i \in 1..n |-> {}] /\ got2 = [i \in 1..n |-> {}]
+  /\ cnt1 = [i \in 1..n |-> 0] /\ cnt2 = [i \in 1..n |-> 0]
+  /\ last = [j \in 1..n |-> [i \in 1..n |-> 0]] /\ redel = 0
   /\ sk = [i \in 1..n |-> <<>>] /\ vk = [i \in 1..n |-> <<>>] /\ res = [i \in 1..n |-> <<>>]
 
 \* round1(): kryptology Round1 per validator -- feldman.Split gives share id x the value f(x); the share for
@@ -103,51 +116,71 @@ Start(i, c) ==
   /\ c1' = [c1 EXCEPT ![i] = [v \in Vals |-> [k \in 1..Len(c[v]) |-> Pub(c[v][k])]]]
   /\ p1' = [p1 EXCEPT ![i] = [j \in Nodes \ {i} |-> [v \in Vals |-> [id |-> j, val |-> Eval(c[v], j)]]]]
   /\ got1c' = [got1c EXCEPT ![i] = @ \cup {i}]                     \* "f.round1CastsRecv <- casts // Send to self"
+  /\ cnt1' = [cnt1 EXCEPT ![i] = @ + 1]
   /\ phase' = [phase EXCEPT ![i] = "r1"]
-  /\ UNCHANGED <<par, c2, got1p, got2, sk, vk, res>>
+  /\ UNCHANGED <<par, c2, got1p, got2, cnt2, last, redel, sk, vk, res>>
 
+\* first delivery of a batch: the callback has not seen this peer's message of this kind, records it, pushes it
 Deliver1C(i, j) == /\ i # j /\ phase[i] # "idle" /\ i \notin got1c[j]
                    /\ got1c' = [got1c EXCEPT ![j] = @ \cup {i}]
-                   /\ UNCHANGED <<par, phase, poly, c1, p1, c2, got1p, got2, sk, vk, res>>
+                   /\ cnt1' = [cnt1 EXCEPT ![j] = @ + 1] /\ last' = [last EXCEPT ![j][i] = 1]
+                   /\ UNCHANGED <<par, phase, poly, c1, p1, c2, got1p, got2, cnt2, redel, sk, vk, res>>
 Deliver1P(i, j) == /\ i # j /\ phase[i] # "idle" /\ i \notin got1p[j]
                    /\ got1p' = [got1p EXCEPT ![j] = @ \cup {i}]
-                   /\ UNCHANGED <<par, phase, poly, c1, p1, c2, got1c, got2, sk, vk, res>>
+                   /\ UNCHANGED <<par, phase, poly, c1, p1, c2, got1c, got2, cnt1, cnt2, last, redel, sk, vk, res>>
 Deliver2(i, j) == /\ i # j /\ phase[i] \in {"r2", "done"} /\ i \notin got2[j]
                   /\ got2' = [got2 EXCEPT ![j] = @ \cup {i}]
-                  /\ UNCHANGED <<par, phase, poly, c1, p1, c2, got1c, got1p, sk, vk, res>>
+                  /\ cnt2' = [cnt2 EXCEPT ![j] = @ + 1] /\ last' = [last EXCEPT ![j][i] = 2]
+                  /\ UNCHANGED <<par, phase, poly, c1, p1, c2, got1c, got1p, cnt1, redel, sk, vk, res>>
+\* a batch j already received is delivered to it again (same message id, same validly signed content)
+Kinds == {"c1", "c2", "p1"}
+Redeliver(i, j, k) ==
+  /\ i # j /\ k \in Kinds
+  /\ i \in (CASE k = "c1" -> got1c[j] [] k = "c2" -> got2[j] [] OTHER -> got1p[j])
+  /\ redel' = redel + 1
+  /\ LET r == IF k = "c1" THEN 1 ELSE 2
+         accepted == Variant = "lastid" /\ k # "p1" /\ last[j][i] # r
+     IN IF accepted
+        THEN /\ last' = [last EXCEPT ![j][i] = r]
+             /\ IF k = "c1" THEN cnt1' = [cnt1 EXCEPT ![j] = @ + 1] /\ UNCHANGED cnt2
+                ELSE cnt2' = [cnt2 EXCEPT ![j] = @ + 1] /\ UNCHANGED cnt1
+        ELSE UNCHANGED <<last, cnt1, cnt2>>                         \* "Ignoring duplicate round ... message"
+  /\ UNCHANGED <<par, phase, poly, c1, p1, c2, got1c, got1p, got2, sk, vk, res>>
 
-\* frostP2P.Round1: "len(castsRecvs) == len(f.peers) && len(p2pRecvs) == len(f.peers)-1"
+\* frostP2P.Round1: "len(castsRecvs) == len(f.peers) && len(p2pRecvs) == len(f.peers)-1" -- message COUNTS
 Barrier1(j) == IF Variant = "nobarrier"
-               THEN Cardinality(got1c[j]) >= par.n - 1 /\ got1p[j] = got1c[j] \ {j}
-               ELSE got1c[j] = Nodes /\ got1p[j] = Nodes \ {j}
+               THEN cnt1[j] >= par.n - 1 /\ got1p[j] = got1c[j] \ {j}
+               ELSE cnt1[j] = par.n /\ Cardinality(got1p[j]) = par.n - 1
 \* getRound2Inputs: the round-2 inputs of validator v are the entries whose ValIdx is v, by SourceID
 InVal(v) == IF Variant = "mixvals" THEN par.nv - 1 ELSE v
 Ret1(j) ==
   /\ phase[j] = "r1" /\ Barrier1(j)
-  /\ LET from == got1c[j] \ {j}                                    \* kryptology Round2: "for id := range bcast"
-         ok == \A i \in from : \A v \in Vals : FeldmanOK(c1[i][InVal(v)], p1[i][j][InVal(v)])
+  /\ LET from == got1c[j] \ {j}              \* makeRound1Response is a map; kryptology Round2: "for id := range bcast"
+         ok == /\ from \subseteq got1p[j]
+               /\ \A i \in from : \A v \in Vals : FeldmanOK(c1[i][InVal(v)], p1[i][j][InVal(v)])
          nsk == [v \in Vals |-> Mod(Eval(poly[j][v], j) + SumOf(from, [i \in from |-> p1[i][j][InVal(v)].val]))]
          nvk == [v \in Vals |-> Mod(c1[j][v][1] + SumOf(from, [i \in from |-> c1[i][InVal(v)][1]]))]
      IN IF ok
         THEN /\ sk' = [sk EXCEPT ![j] = nsk] /\ vk' = [vk EXCEPT ![j] = nvk]
              /\ c2' = [c2 EXCEPT ![j] = [v \in Vals |-> [vk |-> nvk[v], vks |-> Pub(nsk[v])]]]
              /\ got2' = [got2 EXCEPT ![j] = @ \cup {j}]            \* "f.round2CastsRecv <- casts // Send to self"
+             /\ cnt2' = [cnt2 EXCEPT ![j] = @ + 1]
              /\ phase' = [phase EXCEPT ![j] = "r2"]
         ELSE /\ phase' = [phase EXCEPT ![j] = "failed"]            \* "feldman verify fails for participant ..."
-             /\ UNCHANGED <<sk, vk, c2, got2>>
-  /\ UNCHANGED <<par, poly, c1, p1, got1c, got1p, res>>
+             /\ UNCHANGED <<sk, vk, c2, got2, cnt2>>
+  /\ UNCHANGED <<par, poly, c1, p1, got1c, got1p, cnt1, last, redel, res>>
 
-\* frostP2P.Round2: "for len(castsRecvs) != len(f.peers)"; then makeShares: PublicShares[SourceID] = VkShare of the
-\* round-2 cast keyed [ValIdx, SourceID]; PubKey = the node's OWN VerificationKey; results ordered by ValIdx.
+\* frostP2P.Round2: "for len(castsRecvs) != len(f.peers)" (a count again); then makeShares: PublicShares[SourceID] =
+\* VkShare of the round-2 cast keyed [ValIdx, SourceID]; PubKey = the node's OWN VerificationKey; ordered by ValIdx.
 PsKey(i) == IF Variant = "pskey0" THEN i - 1 ELSE i
 PsVal(v) == IF Variant = "valperm" THEN (v + 1) % par.nv ELSE v
 Ret2(j) ==
-  /\ phase[j] = "r2" /\ got2[j] = Nodes
+  /\ phase[j] = "r2" /\ cnt2[j] = par.n
   /\ res' = [res EXCEPT ![j] = [v \in Vals |->
                [gk |-> vk[j][v], ss |-> sk[j][v],
-                ps |-> [x \in {PsKey(i) : i \in Nodes} |-> c2[CHOOSE i \in Nodes : PsKey(i) = x][PsVal(v)].vks]]]]
+                ps |-> [x \in {PsKey(i) : i \in got2[j]} |-> c2[CHOOSE i \in got2[j] : PsKey(i) = x][PsVal(v)].vks]]]]
   /\ phase' = [phase EXCEPT ![j] = "done"]
-  /\ UNCHANGED <<par, poly, c1, p1, c2, got1c, got1p, got2, sk, vk>>
+  /\ UNCHANGED <<par, poly, c1, p1, c2, got1c, got1p, got2, cnt1, cnt2, last, redel, sk, vk>>
 
 ------------------------------------------------------------------------------------------------------------
 (* The property (C11), stated over the results of a completed ceremony. *)
@@ -187,6 +220,15 @@ BelowThresholdSafe == AllDone => \A v \in Vals : LeadSum(v) # 0 =>
                         \A S \in SubsetsOf(par.t - 1) : \A h \in Hs : ~SigOK(1, v, S, h)
 TypeOK == /\ \A j \in Nodes : phase[j] \in {"idle", "r1", "r2", "done", "failed"}
           /\ \A j \in Nodes : got1c[j] \subseteq Nodes /\ got1p[j] \subseteq Nodes \ {j} /\ got2[j] \subseteq Nodes
-Safety == TypeOK /\ NoFailure /\ Agreement /\ KeyedByShareIdx /\ OwnShareMatches /\ GroupKeyIsSum
+\* every message in a receive channel is from a different peer: what makes counting messages sound
+CountsDistinct == \A j \in Nodes : cnt1[j] = Cardinality(got1c[j]) /\ cnt2[j] = Cardinality(got2[j])
+\* a re-delivered message never changes a node's state
+RedeliveryNoEffect == [][redel' # redel =>
+                           UNCHANGED <<par, phase, poly, c1, p1, c2, got1c, got1p, got2, cnt1, cnt2, sk, vk, res>>]_vars
+\* a node leaves round 1 only with one round-1 cast from EVERY peer (and every peer's share batch), round 2 likewise
+LeavesComplete(j) == /\ (phase[j] = "r1" /\ phase'[j] # "r1") => (got1c[j] = Nodes /\ got1p[j] = Nodes \ {j})
+                     /\ (phase[j] = "r2" /\ phase'[j] # "r2") => got2[j] = Nodes
+BarrierComplete == [][\A j \in Nodes : LeavesComplete(j)]_vars
+Safety == TypeOK /\ CountsDistinct /\ NoFailure /\ Agreement /\ KeyedByShareIdx /\ OwnShareMatches /\ GroupKeyIsSum
           /\ AnyTRecover /\ AnyTSign /\ ThresholdIsT /\ BelowThresholdSafe
 ====
